@@ -65,6 +65,77 @@ class TaskThree(_PT):
     pass
 
 
+class _ModeProbe(Task):
+    """a real task whose objective logs WHERE it is evaluated (pid, main thread or not): the only place from which the solver
+    mode actually used by a real optimizer can be observed"""
+
+    def objective_function(self, x):
+        import threading
+        line = json.dumps({"task": self.name, "pid": os.getpid(), "main": threading.current_thread() is threading.main_thread()}) + "\n"
+        fd = os.open(self.data["log"], os.O_WRONLY | os.O_APPEND | os.O_CREAT, 0o644)
+        try:
+            os.write(fd, line.encode())
+        finally:
+            os.close(fd)
+        return float(sum((float(v) - 0.5) ** 2 for v in x))
+
+
+class ModeProbeSerial(_ModeProbe):
+    pass
+
+
+class ModeProbeThread(_ModeProbe):
+    pass
+
+
+class ModeProbeProcess(_ModeProbe):
+    pass
+
+
+def work_modes(item, opts):
+    """real optimizer x three real tasks designated serial / thread / process (per-task modes), with and without n_workers"""
+    rng = random.Random(f"c20m/{item['seed']}")
+    name = rng.choice(["ParticleSwarmOptimization", "GreyWolfOptimization", "WhalesOptimization", "HarmonySearchOptimization"])
+    cfg = dict(universe.base_configs()[name]); cfg["max_cycles"] = 2; cfg["fitness_error"] = None
+    out = {"viol": [], "calls": 0}
+    wd = tempfile.mkdtemp(prefix="c20m.", dir=os.environ.get("PVMON_WORKDIR"))
+    try:
+        log = os.path.join(wd, "where.jsonl")
+        classes = [ModeProbeSerial, ModeProbeThread, ModeProbeProcess]
+        modes = ("serial", "thread", "process")
+        tsks = tuple(C(variables=[ContinuousVariable(name="x", lower_bound=-1, upper_bound=1), ContinuousVariable(name="y", lower_bound=0, upper_bound=2)],
+                       data={"log": log}) for C in classes)
+        algo = env.optimizer_classes()[name](env.config_class(name)(**cfg))
+        n_trials = item["n_trials"]
+        mt = Multitask((algo,), tsks, modes=modes, n_workers=item["n_workers"])
+        with contextlib.redirect_stdout(io.StringIO()):
+            mt.execute(n_trials=n_trials, n_jobs=2)
+        calls = [json.loads(l) for l in open(log)] if os.path.exists(log) else []
+        out["calls"] = len(calls)
+        by = collections.defaultdict(list)
+        for c in calls:
+            by[c["task"]].append(c)
+        what = f"{name}, n_workers={item['n_workers']}, trials={n_trials}"
+        s_ = by.get("ModeProbeSerial", [])
+        if not s_ or any(not c["main"] for c in s_) or len({c["pid"] for c in s_}) > n_trials:
+            out["viol"].append({"key": {"component": "Multitask", "kind": "designated-mode-not-used", "mode": "serial"},
+                                "detail": f"{what}: task designated 'serial' evaluated from {len({c['pid'] for c in s_})} processes, "
+                                          f"{sum(not c['main'] for c in s_)} calls off the main thread"})
+        t_ = by.get("ModeProbeThread", [])
+        if not t_ or all(c["main"] for c in t_):
+            out["viol"].append({"key": {"component": "Multitask", "kind": "designated-mode-not-used", "mode": "thread"},
+                                "detail": f"{what}: task designated 'thread': all {len(t_)} evaluations ran on the main thread of the trial process"})
+        p_ = by.get("ModeProbeProcess", [])
+        if not p_ or len({c["pid"] for c in p_}) <= n_trials:
+            out["viol"].append({"key": {"component": "Multitask", "kind": "designated-mode-not-used", "mode": "process"},
+                                "detail": f"{what}: task designated 'process': evaluations came from {len({c['pid'] for c in p_})} process(es) for {n_trials} trial(s)"})
+    except Exception as e:
+        out["viol"].append({"key": {"component": "Multitask", "kind": "execute-exception", "shape": "modes-real"}, "detail": f"{type(e).__name__}: {e}"[:300]})
+    finally:
+        shutil.rmtree(wd, ignore_errors=True)
+    return out
+
+
 ALGOS = [ProbeAlpha, ProbeBeta, ProbeGamma]
 TASKS = [TaskOne, TaskTwo, TaskThree]
 
@@ -292,6 +363,19 @@ def check(prop, tier, seed):
         real_done += 1
         for v in r["viol"]:
             rep.violation(v["key"], v["detail"], replay={"kind": "real", "item": it})
+    mitems = [{"seed": f"{seed}/{k}", "n_trials": rng.choice([1, 2]), "n_workers": [2, None, 3, 2][k % 4]} for k in range(4 if tier == "quick" else 24)]
+    res = runner.run_parallel("pvmon.props.c20", "work_modes", mitems, {}, jobs=4, per_item_s=200)
+    modes_done = 0
+    for it, r in zip(mitems, res):
+        rep.evaluations += 1
+        if isinstance(r, Lost):
+            rep.lost += 1
+            continue
+        modes_done += 1
+        rep.distinct.add(("modes", it["seed"]))
+        for v in r["viol"]:
+            rep.violation(v["key"], v["detail"], replay={"kind": "modes", "item": it})
+    rep.extra["real_runs_observed_at_the_objective"] = modes_done
     rep.extra.update({"multitask_instances": done, "scripted_optimize_calls_logged": calls, "exported_files_checked": files,
                       "instances_by_modes_shape": dict(shapes), "unknown_mode_tuples_judged": rejected, "real_end_to_end_runs": real_done})
     rep.sample(items[7])
@@ -306,12 +390,13 @@ def check(prop, tier, seed):
     rep.require("exported_files_checked", files, len(items))
     rep.require("unknown_mode_tuples_judged", rejected, 18)
     rep.require("real_end_to_end_runs", real_done, 2)
+    rep.require("real_runs_observed_at_the_objective", modes_done, 3)
     return rep.finish()
 
 
 def replay(prop, data):
     rp = data["replay"]
-    r = {"multitask": work, "reject": work_reject, "real": work_real}[rp["kind"]](rp["item"], {})
+    r = {"multitask": work, "reject": work_reject, "real": work_real, "modes": work_modes}[rp["kind"]](rp["item"], {})
     for v in r["viol"]:
         print(f"[{prop}] replay: {v['detail']}")
     return bool(r["viol"])
